@@ -175,6 +175,10 @@ SPEC = [
     ('param_defaults', 'eudoxia/simulator.py', [(None, 'get_param_defaults')], (), False),
     ('sched_registry', 'eudoxia/scheduler/decorators.py',
      [(None, 'register_scheduler_init'), (None, 'register_scheduler')], (), True),
+    ('workload_gen', 'eudoxia/workload/workload.py',
+     [('WorkloadGenerator', n) for n in ('__init__', 'generate_query_segment', 'generate_segment_not_heavy_io',
+                                         'generate_segment', 'generate_segment_from_val', 'generate_pipelines',
+                                         'run_one_tick')], (), False),
     ('trace_replay', 'eudoxia/workload/workload.py',
      [('WorkloadTrace', n) for n in ('__init__', 'advance_to_next_batch', 'get_next_batch_tick', 'run_one_tick')],
      (), False),
